@@ -80,7 +80,17 @@ func hostileMembers(cfg gen.Config) []member {
 // ruleHostile: on every hostile member the generator must return an error (fail loudly): it must not
 // panic and must not produce output.
 func ruleHostile(c *core.Ctx) {
+	runHostile(c, func(string) bool { return true })
+	c.Floor("hostile", c.Counts["hostile_members"], 40, "hostile family members")
+	ruleHostileRest(c)
+}
+
+// runHostile runs the hostile members selected by sel: the generator must return an error on each.
+func runHostile(c *core.Ctx, sel func(name string) bool) {
 	for _, mb := range hostileMembers(gen.DefaultConfig()) {
+		if !sel(mb.name) {
+			continue
+		}
 		worlds, complete := fam.Run(c.Prog, mb.cfg, mb.root, 64, nil)
 		c.Counts["hostile_members"]++
 		if !complete {
@@ -107,7 +117,9 @@ func ruleHostile(c *core.Ctx) {
 			}
 		}
 	}
-	c.Floor("hostile", c.Counts["hostile_members"], 40, "hostile family members")
+}
+
+func ruleHostileRest(c *core.Ctx) {
 	// ... and never panics on VALID input either: every member of the broad union of families (all keyword families, defaults of every
 	// kind, enums, compositions) is generated; a panic of the interpreted generator or an error on a valid schema is reported
 	for _, mb := range broadMembers(c.Tier, gen.DefaultConfig()) {
